@@ -1,5 +1,6 @@
 import GoldModel.Model.SymTab
 import GoldModel.Drive.Common
+-- @mode sym Gold.Drive.SymMode.run
 /-! driver mode `sym` (model) — one case per line:
     `sym <nscopes> <name,name,…> <op> …` with ops `i<scope>:<id>` and `Q`. -/
 namespace Gold.Drive.SymMode
